@@ -89,7 +89,7 @@ Qed.
 Lemma helpers_dead : forall h l b cs, data l = Some b -> nth_error h b = Some (mkblock cs false) ->
   (forall i, list_get h l i = Unsafe UseAfterFree \/ list_get h l i = Unsafe OutOfBounds) /\
   (forall v, exists k, list_append h l v = Unsafe k) /\
-  (forall s, list_assign h l s false = Unsafe DoubleFree).
+  (forall s cs2, rep h s cs2 -> list_assign h l s false = Unsafe DoubleFree).
 Proof.
   intros h l b cs D N. repeat split.
   - intros i. unfold list_get. destruct (list_index l i <? 0)%Z; auto.
@@ -103,51 +103,52 @@ Proof.
       rewrite nth_error_app_old by auto. rewrite N. simpl. eauto.
     + simpl copy_loop. unfold hread at 1. rewrite D. rewrite nth_error_app_old by auto. rewrite N. simpl.
       destruct (0 <? length cs); simpl; eauto.
-  - intros s. unfold list_assign. rewrite D. unfold hfree. rewrite N. reflexivity.
+  - intros s cs2 Hs. unfold list_assign.
+    assert (Hsz : size s = length cs2) by (eapply rep_size; eauto).
+    assert (Hb : b < length h) by (apply nth_error_Some; congruence).
+    rewrite Hsz. destruct cs2 as [|c r].
+    + simpl. rewrite D. unfold hfree. rewrite N. reflexivity.
+    + simpl Nat.eqb. cbv iota. unfold alloc.
+      pose proof (copy_all_fresh h s (c :: r) [] Hs) as C. rewrite !app_nil_r in C. rewrite Hsz in C. rewrite C. cbn [rbind].
+      rewrite D. unfold hfree. rewrite nth_error_app_old by auto. rewrite N. reflexivity.
 Qed.
 
-(* ------------------------------------------------------------------ refutations *)
-Definition uaf_setup : list stmt := [LDeclLit 0 [1; 2; 3]; LAssignVar 1 0; LAppend 0 4; LGet 1 0]%Z.
+(* ------------------------------------------------------------------ the witnesses of the repaired ownership findings *)
+(* [repaired setup body]: the program is inside the guard of the value-semantics theorem (hence memory-safe with a tight
+   heap for EVERY history), CPython and the firmware both run 1 and 4 passes, and the firmware's heap usage after pass 4
+   equals that after pass 1 *)
+Definition repaired (setup body : list stmt) : Prop :=
+  value_ok setup [body; body; body; body] = true /\
+  exists p1 p4 s1 s4,
+    run_py setup body 1 = POk p1 /\ run_py setup body 4 = POk p4 /\
+    run_fw setup body 1 = Safe s1 /\ run_fw setup body 4 = Safe s4 /\
+    f_live_cells s1 = f_live_cells s4 /\ f_live_blocks s1 = f_live_blocks s4.
 
-Lemma alias_use_after_free :
-  exists setup body n pst,
-    run_py setup body n = POk pst /\ run_fw setup body n = Unsafe UseAfterFree.
-Proof. exists uaf_setup, [], 0. eexists. split; vm_compute; reflexivity. Qed.
+Ltac repaired_witness := split; [vm_compute; reflexivity|]; do 4 eexists; repeat (split; [vm_compute; reflexivity|]); vm_compute; reflexivity.
+
+Definition uaf_setup : list stmt := [LDeclLit 0 [1; 2; 3]; LAssignVar 1 0; LAppend 0 4; LGet 1 0]%Z.
+Lemma alias_repaired : repaired uaf_setup [LGet 0 0; LGet 1 0]%Z.
+Proof. repaired_witness. Qed.
 
 Definition byval_setup : list stmt := [LDeclLit 0 [1]; LCallAppend 0 2; LGet 0 0]%Z.
-
-Lemma byvalue_use_after_free :
-  exists setup body n pst,
-    run_py setup body n = POk pst /\ run_fw setup body n = Unsafe UseAfterFree.
-Proof. exists byval_setup, [], 0. eexists. split; vm_compute; reflexivity. Qed.
+Lemma byvalue_repaired : repaired byval_setup [LCallAppend 0 2; LGet 0 0]%Z.
+Proof. repaired_witness. Qed.
 
 Definition dfree_setup : list stmt := [LDeclLit 0 [1]; LAssignVar 1 0; LAppend 0 2; LAssignLit 1 [5]]%Z.
+Lemma alias_double_free_repaired : repaired dfree_setup [LGet 0 0; LGet 1 0]%Z.
+Proof. repaired_witness. Qed.
 
-Lemma alias_double_free :
-  exists setup body n pst,
-    run_py setup body n = POk pst /\ run_fw setup body n = Unsafe DoubleFree.
-Proof. exists dfree_setup, [], 0. eexists. split; vm_compute; reflexivity. Qed.
-
-(* leaks: Python's live data is the same after passes k and k+1, the firmware's live cells are not *)
 Definition leak_comp_body : list stmt := [LLocalDeclComp 0 (mkcomp 0 3 1 2 0)]%Z.
 Definition leak_lit_body : list stmt := [LLocalDeclLit 0 [1; 2; 3]]%Z.
 Definition leak_reassign_setup : list stmt := [LDeclLit 0 [1; 2; 3]]%Z.
 Definition leak_reassign_body : list stmt := [LAssignLit 0 [1; 2; 3]]%Z.
 
-Definition leaks (setup body : list stmt) : Prop :=
-  exists k p1 p2 s1 s2,
-    run_py setup body k = POk p1 /\ run_py setup body (S k) = POk p2 /\ p_live p1 = p_live p2 /\
-    run_fw setup body k = Safe s1 /\ run_fw setup body (S k) = Safe s2 /\
-    f_live_cells s1 < f_live_cells s2 /\ f_live_blocks s1 < f_live_blocks s2.
-
-Ltac leak_witness := exists 1; do 4 eexists; repeat (split; [vm_compute; reflexivity|]); split; vm_compute; lia.
-
-Lemma leak_comp_local : leaks [] leak_comp_body.
-Proof. leak_witness. Qed.
-Lemma leak_lit_local : leaks [] leak_lit_body.
-Proof. leak_witness. Qed.
-Lemma leak_reassign : leaks leak_reassign_setup leak_reassign_body.
-Proof. leak_witness. Qed.
+Lemma leak_comp_local_repaired : repaired [] leak_comp_body.
+Proof. repaired_witness. Qed.
+Lemma leak_lit_local_repaired : repaired [] leak_lit_body.
+Proof. repaired_witness. Qed.
+Lemma leak_reassign_repaired : repaired leak_reassign_setup leak_reassign_body.
+Proof. repaired_witness. Qed.
 
 (* ------------------------------------------------------------------ non-vacuity witnesses *)
 (* a single-owner program that declares, appends, removes, indexes (negative too), self-assigns
@@ -179,78 +180,6 @@ Proof.
 Qed.
 
 (* ------------------------------------------------------------------ the loop-local leak, for every number of passes *)
-Lemma live_cells_app2 : forall a b, live_cells (a ++ b) = live_cells a + live_cells b.
-Proof. induction a as [|x r IH]; intros; simpl; auto. rewrite IH. lia. Qed.
-
-Lemma live_blocks_app2 : forall a b, live_blocks (a ++ b) = live_blocks a + live_blocks b.
-Proof. intros. unfold live_blocks. now rewrite filter_app, app_length. Qed.
-
-Definition blk3 : block := mkblock [0; 2; 4]%Z true.
-
-Lemma live_repeat : forall n, live_cells (repeat blk3 n) = 3 * n /\ live_blocks (repeat blk3 n) = n.
-Proof.
-  induction n as [|n [IH1 IH2]]; simpl; auto. split; [lia|].
-  unfold live_blocks in *. simpl. now rewrite IH2.
-Qed.
-
-Lemma leak_pass_fw : forall h,
-  run_pass leak_comp_body (mkf h [] []) = Safe (mkf (h ++ [blk3]) [] [], []).
-Proof.
-  intros h. unfold run_pass, leak_comp_body, f_block, f_exec, comp_list. simpl f_heap.
-  rewrite from_range_spec. reflexivity.
-Qed.
-
-Lemma leak_passes_fw : forall n h,
-  run_passes leak_comp_body (mkf h [] []) n = Safe (mkf (h ++ repeat blk3 n) [] []).
-Proof.
-  induction n as [|n IH]; intros h; simpl.
-  - now rewrite app_nil_r.
-  - rewrite leak_pass_fw. cbn [rbind fst]. rewrite IH. now rewrite <- app_assoc.
-Qed.
-
-Definition leak_vals : list Z := [0; 2; 4]%Z.
-
-Definition PJ (pst : pstate) : Prop :=
-  p_glob pst = [] /\ (p_loc pst = [] \/ exists o, p_loc pst = [(0%Z, o)]).
-
-Lemma leak_pass_py : forall pst, PJ pst ->
-  exists pst', py_pass leak_comp_body pst = POk (pst', []) /\ PJ pst' /\ p_live pst' = 3.
-Proof.
-  intros [objs gl lo] (Hg & Hl). simpl in Hg, Hl. subst gl.
-  assert (V : py_range (mkcomp 0 3 1 2 0) = leak_vals) by (vm_compute; reflexivity).
-  unfold py_pass, leak_comp_body. cbn [p_block p_exec c_step]. simpl Z.eqb. cbv iota.
-  cbn [pbind]. rewrite V. eexists. split; [reflexivity|].
-  destruct Hl as [->|(o & ->)]; unfold p_new, p_bind, has, PJ, p_live, p_obj; simpl;
-    (split; [split; eauto|]); rewrite app_nth2 by lia; rewrite Nat.sub_diag; reflexivity.
-Qed.
-
-Lemma leak_passes_py : forall n pst, PJ pst ->
-  exists pst', py_passes leak_comp_body pst n = POk pst' /\ PJ pst' /\ (n >= 1 -> p_live pst' = 3).
-Proof.
-  induction n as [|n IH]; intros pst J; cbn [py_passes].
-  - exists pst. split; [reflexivity|]. split; [exact J|]. intros H. exfalso. lia.
-  - destruct (leak_pass_py pst J) as (p1 & E & J1 & L1). rewrite E. cbn [pbind fst].
-    destruct (IH p1 J1) as (p2 & E2 & J2 & L2). exists p2. split; auto. split; auto.
-    intros _. destruct n; [|apply L2; lia]. simpl in E2. injection E2 as <-. exact L1.
-Qed.
-
-(* one block of 3 cells leaked per pass, for EVERY number of passes, while Python's live data stays 3 *)
-Lemma leak_comp_local_all : forall n,
-  exists st pst, run_fw [] leak_comp_body n = Safe st /\ run_py [] leak_comp_body n = POk pst /\
-                 f_live_cells st = 3 * n /\ f_live_blocks st = n /\ (n >= 1 -> p_live pst = 3).
-Proof.
-  intros n. unfold run_fw, run_setup, run_py, py_setup. simpl f_block. simpl p_block. cbn [rbind pbind fst].
-  unfold f_init. rewrite leak_passes_fw.
-  destruct (leak_passes_py n p_init) as (pst & E & _ & L). { unfold PJ, p_init. simpl. auto. }
-  exists (mkf ([] ++ repeat blk3 n) [] []), pst. simpl app.
-  destruct (live_repeat n) as [A B]. repeat split; auto.
-Qed.
-
-(* ------------------------------------------------------------------ clone instead of alias *)
-(* a = [1]; c = [2]; c = a   while True: c.append(5); a.remove(5)
-   Python: c and a are one object, its length is the same after every pass.  Firmware: `c = a` on a
-   declared list is __redu_list_assign (a deep copy), so c grows by one cell per pass and a.remove(5)
-   finds nothing: memory-safe, but the heap grows while Python's live data is constant. *)
 Definition clone_setup : list stmt := [LDeclLit 0 [1]; LDeclLit 1 [2]; LAssignVar 1 0]%Z.
 Definition clone_body : list stmt := [LAppend 1 5; LRemove 0 5; LGet 0 (-1)]%Z.
 
@@ -280,89 +209,6 @@ Lemma clone_guard_witness :
 Proof. split; vm_compute; reflexivity. Qed.
 
 (* ------------------------------------------------------------------ the re-assignment leak, for every number of passes *)
-Definition items3 : list Z := [1; 2; 3]%Z.
-
-(* firmware state reached by the re-assignment program: one global list of 3 cells; [c] live cells *)
-Definition RJ (c : nat) (st : fstate) : Prop :=
-  f_loc st = [] /\ exists b, f_glob st = [(0%Z, mklist (Some b) 3)] /\
-  rep (f_heap st) (mklist (Some b) 3) items3 /\ live_cells (f_heap st) = c.
-
-Lemma reassign_pass_fw : forall c st, RJ c st ->
-  exists st', run_pass leak_reassign_body st = Safe (st', []) /\ RJ (c + 3) st'.
-Proof.
-  intros c [h g lo] (Hl & b & Hg & Hr & Hc). simpl in *. subst lo g.
-  unfold run_pass, leak_reassign_body. cbn [f_block f_exec f_heap].
-  rewrite make_spec. cbn [rbind]. fold items3.
-  set (h1 := h ++ [mkblock items3 true]).
-  set (tmp := mklist (Some (length h)) (length items3)).
-  assert (Hb : b < length h) by (eapply rep_bound; eauto; reflexivity).
-  assert (Hr1 : rep h1 (mklist (Some b) 3) items3).
-  { eapply rep_frame; eauto. intros b0 E. simpl in E. injection E as <-. unfold h1. now apply nth_error_app_old. }
-  assert (Ht : rep h1 tmp items3).
-  { unfold rep, tmp, h1. simpl. rewrite nth_error_app_new. repeat split; auto. discriminate. }
-  assert (Hlk : f_lookup (mkf h [(0%Z, mklist (Some b) 3)] []) 0%Z = mklist (Some b) 3) by reflexivity.
-  rewrite Hlk.
-  assert (D : data (mklist (Some b) 3) = None \/ data (mklist (Some b) 3) <> data tmp).
-  { right. simpl. intro E. injection E as E. lia. }
-  rewrite (assign_spec h1 _ tmp items3 items3 Hr1 Ht D). cbn [rbind]. unfold items3 at 1. cbv iota.
-  eexists. split; [reflexivity|].
-  unfold RJ. simpl. split; auto. eexists. split; [reflexivity|].
-  destruct (kill_counts h1 _ items3 Hr1) as [_ KC]. simpl in KC.
-  split.
-  - unfold rep. simpl. rewrite <- (kill_length h1 (Some b)). rewrite nth_error_app_new. repeat split; auto. discriminate.
-  - rewrite live_cells_app. unfold h1 in *. rewrite live_cells_app in KC. simpl in *. lia.
-Qed.
-
-Lemma reassign_passes_fw : forall n c st, RJ c st ->
-  exists st', run_passes leak_reassign_body st n = Safe st' /\ RJ (c + 3 * n) st'.
-Proof.
-  induction n as [|n IH]; intros c st J; cbn [run_passes].
-  - exists st. split; auto. replace (c + 3 * 0) with c by lia. exact J.
-  - destruct (reassign_pass_fw c st J) as (st1 & E & J1). rewrite E. cbn [rbind fst].
-    destruct (IH (c + 3) st1 J1) as (st2 & E2 & J2). exists st2. split; auto.
-    replace (c + 3 * S n) with (c + 3 + 3 * n) by lia. exact J2.
-Qed.
-
-Definition PR (pst : pstate) : Prop :=
-  p_loc pst = [] /\ exists o, p_glob pst = [(0%Z, o)] /\ o < length (p_objs pst) /\ nth o (p_objs pst) [] = items3.
-
-Lemma reassign_pass_py : forall pst, PR pst ->
-  exists pst', py_pass leak_reassign_body pst = POk (pst', []) /\ PR pst' /\ p_live pst' = 3.
-Proof.
-  intros [objs gl lo] (Hl & o & Hg & Ho & Hn). simpl in *. subst lo gl.
-  unfold py_pass, leak_reassign_body. cbn [p_block p_exec pbind]. eexists. split; [reflexivity|].
-  unfold p_new, p_bind, has, PR, p_live, p_obj. simpl.
-  split; [split; auto; eexists; split; [reflexivity|]|].
-  - rewrite app_length. simpl. split; [lia|]. rewrite app_nth2 by lia. now rewrite Nat.sub_diag.
-  - rewrite app_nth2 by lia. now rewrite Nat.sub_diag.
-Qed.
-
-Lemma reassign_passes_py : forall n pst, PR pst -> p_live pst = 3 ->
-  exists pst', py_passes leak_reassign_body pst n = POk pst' /\ PR pst' /\ p_live pst' = 3.
-Proof.
-  induction n as [|n IH]; intros pst J L; cbn [py_passes].
-  - exists pst. auto.
-  - destruct (reassign_pass_py pst J) as (p1 & E & J1 & L1). rewrite E. cbn [pbind fst]. now apply IH.
-Qed.
-
-(* one block of 3 cells leaked per pass by the re-assignment temporary, for EVERY number of passes *)
-Lemma leak_reassign_all : forall n,
-  exists st pst, run_fw leak_reassign_setup leak_reassign_body n = Safe st /\
-                 run_py leak_reassign_setup leak_reassign_body n = POk pst /\
-                 f_live_cells st = 3 + 3 * n /\ p_live pst = 3.
-Proof.
-  intros n. unfold run_fw, run_py.
-  assert (S0 : exists st0, run_setup leak_reassign_setup = Safe (st0, []) /\ RJ 3 st0).
-  { eexists. split; [vm_compute; reflexivity|]. unfold RJ. simpl. split; auto. exists 0. repeat split; auto. discriminate. }
-  assert (P0 : exists p0, py_setup leak_reassign_setup = POk (p0, []) /\ PR p0 /\ p_live p0 = 3).
-  { eexists. split; [vm_compute; reflexivity|]. unfold PR. simpl. split; [|reflexivity]. split; auto. exists 0. auto. }
-  destruct S0 as (st0 & E0 & J0). destruct P0 as (p0 & F0 & K0 & L0).
-  rewrite E0, F0. cbn [rbind pbind fst].
-  destruct (reassign_passes_fw n 3 st0 J0) as (st & E & (_ & b & _ & _ & C)).
-  destruct (reassign_passes_py n p0 K0 L0) as (pst & F & _ & L).
-  exists st, pst. repeat split; auto.
-Qed.
-
 (* ================================================================== reference arguments, tuple assignment *)
 (* x.append(y[i]) / x.remove(y[i]): `value` is a reference into y's buffer (y may be x itself);
    safe exactly when Python's index condition holds, with Python's result *)
@@ -404,7 +250,7 @@ Definition ok2_body : list stmt :=
   [LAppendRef 0 0 0; LRemoveRef 0 0 0; LAppendRef 1 0 (-1); LRemoveRef 1 1 0;
    LTuple [0; 1] [RVar 1; RVar 0]; LTuple [0; 1; 2] [RVar 1; RVar 2; RVar 0]; LGet 2 (-1)]%Z.
 
-Lemma ok2_guard : single_owner ok2_setup ok2_body = true.
+Lemma ok2_guard : value_ok ok2_setup [ok2_body; ok2_body; ok2_body; ok2_body; ok2_body] = true.
 Proof. vm_compute. reflexivity. Qed.
 
 Lemma ok2_python : exists pst, run_py ok2_setup ok2_body 5 = POk pst /\ p_live pst = 8.
@@ -415,18 +261,15 @@ Proof. eexists. split; vm_compute; reflexivity. Qed.
    dest.data is deleted and the copy loop then reads it through source.data *)
 Definition ret_setup : list stmt := [LDeclLit 0 [1; 2; 3]; LAssignRet 0 0]%Z.
 
-Lemma assign_self_alias_use_after_free :
-  exists setup body n pst,
-    run_py setup body n = POk pst /\ run_fw setup body n = Unsafe UseAfterFree.
-Proof. exists ret_setup, [], 0. eexists. split; vm_compute; reflexivity. Qed.
+Lemma assign_self_alias_repaired : repaired ret_setup [LAssignRet 0 0; LGet 0 0]%Z.
+Proof. repaired_witness. Qed.
 
-(* a = [1, 2, 3]; b = [4, 5, 6]   while True: a, b = [7, 8, 9], a
-   plain struct assignments from the temporaries: b's old buffer is dropped without delete[] in every pass *)
+(* a = [1, 2, 3]; b = [4, 5, 6]   while True: a, b = [7, 8, 9], a *)
 Definition tuple_leak_setup : list stmt := [LDeclLit 0 [1; 2; 3]; LDeclLit 1 [4; 5; 6]]%Z.
 Definition tuple_leak_body : list stmt := [LTuple [0; 1] [RLit [7; 8; 9]; RVar 0]]%Z.
 
-Lemma tuple_literal_leak : leaks tuple_leak_setup tuple_leak_body.
-Proof. leak_witness. Qed.
+Lemma tuple_literal_repaired : repaired tuple_leak_setup tuple_leak_body.
+Proof. repaired_witness. Qed.
 
 Lemma self_argument_safe : forall h l cs i, rep h l cs -> in_range l i ->
   exists h' l' v, list_get h l i = Safe v /\ list_append_a h l (ARef l i) = Safe (h', l') /\ rep h' l' (cs ++ [v]).
